@@ -10,6 +10,7 @@ LABELS = {
     'int': [1, 2, 3, 4, 5],
     'str': ['a', 'b', 'c', 'd', 'e'],
     'float': [0.5, 1.5, 2.5, 3.5, 4.5],
+    'perm': [30, 10, 20, 50, 40],      # integer labels whose sort order differs from the list order
 }
 
 
